@@ -317,6 +317,8 @@ pub struct MonState {
     pub distinct_states: HashSet<(usize, [usize; 6])>,
     pub max_depths: [usize; 9],
     pub pending_call: Option<[usize; 6]>,
+    /// value / register stack depths that the caller must see right after a procedure returned
+    pub pending_return: Option<(usize, usize, usize)>,
     pub back_jumps: u64,
     pub calls: u64,
     pub prev_addr: Option<usize>,
@@ -411,6 +413,17 @@ impl MonState {
             self.prev_jif = Some((address, *t));
         }
         let v = vec6(d);
+        // the first instruction after a procedure returned: the loop frames and SELECT CASE values of the call are gone
+        // (the VM drops them with the call, e.g. after EXIT SUB from a GOSUB routine entered inside a FOR loop)
+        if let Some((values, registers, ret_addr)) = self.pending_return.take() {
+            if v[0] != values || v[1] != registers {
+                let s = format!(
+                    "stack depths after the return of a procedure differ from those at its entry, at {}: value_stack {}->{}, register_stack {}->{}",
+                    self.pos_str(ret_addr), values, v[0], registers, v[1]
+                );
+                Self::push_v(&mut self.c15, s);
+            }
+        }
         // a pending call: this is the first instruction of the callee
         if let Some(caller_v) = self.pending_call.take() {
             let id = self.next_activation_id;
@@ -485,8 +498,12 @@ impl MonState {
             Instruction::PopRet => {
                 if !in_handler {
                     if let Some(act) = self.activation_stack.last() {
-                        if act.id != 0 && act.entry != v {
-                            let which: Vec<String> = (0..6)
+                        if act.id != 0 {
+                            self.pending_return = Some((act.entry[0], act.entry[1], address));
+                        }
+                        // the other stacks must be balanced when the procedure ends
+                        if act.id != 0 && act.entry[2..] != v[2..] {
+                            let which: Vec<String> = (2..6)
                                 .filter(|k| act.entry[*k] != v[*k])
                                 .map(|k| format!("{} {}->{}", V6_NAMES[k], act.entry[k], v[k]))
                                 .collect();
